@@ -1,5 +1,6 @@
 import QuantemModel.Lemmas.Checkpoint
 import QuantemModel.Lemmas.CheckpointSer
+import QuantemModel.Lemmas.CheckpointSession
 import Mathlib.Logic.Function.Iterate
 /-!
 C05 — checkpoint / resume equivalence, for the protocol-level model of
@@ -242,9 +243,9 @@ def cexStep : Step Int Int Int Unit where
   sched := fun s _ lr => (s, lr)
 
 def cexInit : Recon Int Int Unit where
-  object := ⟨[], none, none, []⟩
-  probe := ⟨[], none, none, []⟩
-  dataset := ⟨[(0, 0), (1, 0)], some { params := [0, 1], state := [], lr := 1, hyper := 0 }, none, []⟩
+  object := { params := [], opt := none, sched := none, cons := [] }
+  probe := { params := [], opt := none, sched := none, cons := [] }
+  dataset := { params := [(0, 0), (1, 0)], opt := some { params := [0, 1], state := [], lr := 1, hyper := 0 }, sched := none, cons := [] }
   book := Book.empty
   verbose := 0
   batchSize := 1
@@ -262,7 +263,117 @@ theorem resume_positional_counterexample (pk : Pickle (ModelSt Int Int Unit)) :
   simp only [Option.map_some]
   exact ⟨by decide, by decide⟩
 
+/-! ### 6. call histories with rejected calls (exception safety) -/
+
+/-- **resume equivalence over call histories**, for any state machine whose calls — a rejected call is a call that
+leaves SOME state behind — keep the invariant the round trip needs: checkpoint after any prefix of the history,
+continue with the remaining calls -/
+theorem resume_eq_calls {α β C : Type} (exec : C → α → α) (save : α → β) (fromFile : β → Option α) (Inv : α → Prop)
+    (hrt : RoundTrips Inv save fromFile) (hinv : ∀ c r, Inv r → Inv (exec c r))
+    (r : α) (h0 : Inv r) (pre post : List C) :
+    (fromFile (save (pre.foldl (fun r c => exec c r) r))).map (fun r => post.foldl (fun r c => exec c r) r)
+      = some ((pre ++ post).foldl (fun r c => exec c r) r) := by
+  have hpre : ∀ (cs : List C) (r : α), Inv r → Inv (cs.foldl (fun r c => exec c r) r) := by
+    intro cs
+    induction cs with
+    | nil => intro r h; exact h
+    | cons c cs ih => intro r h; exact ih _ (hinv c r h)
+  rw [hrt _ (hpre pre r h0), Option.map_some, List.foldl_append]
+
+/-- **`reset_recon` is exception safe** (the code after 556a796): whether or not rebuilding an optimizer is rejected,
+and whatever the optimizers were bound to before, afterwards every optimizer is bound to the live parameters -/
+theorem reset_recon_exception_safe {θ μ σ : Type} (mk : Nat → Nat → σ × Nat) (dflt : List (String × Nat)) (r : Recon θ μ σ)
+    (h : r.nonempty) : (resetRecon mk dflt r).1.swf :=
+  resetRecon_swf mk dflt r h
+
+/-- **every `reconstruct` call keeps the checkpoint invariant — also a call that is rejected at any of its stages**
+(batch size, reset with a stored configuration that is rejected, constraint key / category, optimizer key / type /
+keyword, scheduler key / type, loss type), for every step function, scheduler constructor and argument list -/
+theorem call_keeps_invariant {θ γ μ σ : Type} (S : Step θ γ μ σ) (mk : Nat → Nat → σ × Nat) (dflt : List (String × Nat))
+    (c : Call) (r : Recon θ μ σ) (h : r.swf) : (exec S mk dflt c r).1.swf :=
+  exec_swf S mk dflt c r h
+
+/-- … hence every history of calls does -/
+theorem history_keeps_invariant {θ γ μ σ : Type} (S : Step θ γ μ σ) (mk : Nat → Nat → σ × Nat) (dflt : List (String × Nat))
+    (cs : List Call) (r : Recon θ μ σ) (h : r.swf) : (runCalls S mk dflt cs r).swf :=
+  runCalls_swf S mk dflt cs r h
+
+/-- **C05 over call histories, save / from_file**: interrupt a session after any prefix `pre` of its calls —
+configuration calls, resets, staged optimizer changes, rejected calls — save, reload, carry on with `post` -/
+theorem resume_eq_history_checkpoint {θ γ μ σ : Type} (S : Step θ γ μ σ) (mk : Nat → Nat → σ × Nat) (dflt : List (String × Nat))
+    (pk : Pickle (ModelSt θ μ σ)) (r : Recon θ μ σ) (h : r.swf) (pre post : List Call) :
+    (fromFile pk (save reconnect pk (runCalls S mk dflt pre r))).map (runCalls S mk dflt post)
+      = some (runCalls S mk dflt (pre ++ post) r) :=
+  resume_eq_calls (fun c r => (exec S mk dflt c r).1) (save reconnect pk) (fromFile pk) Recon.swf
+    (fun r h => roundTrips_checkpoint pk r h.1) (fun c r h => exec_swf S mk dflt c r h) r h pre post
+
+/-- **C05 over call histories, clone** -/
+theorem resume_eq_history_clone {θ γ μ σ : Type} (S : Step θ γ μ σ) (mk : Nat → Nat → σ × Nat) (dflt : List (String × Nat))
+    (pk : Pickle (ModelSt θ μ σ)) (r : Recon θ μ σ) (h : r.swf) (pre post : List Call) :
+    (clone reconnect pk (runCalls S mk dflt pre r)).map (runCalls S mk dflt post)
+      = some (runCalls S mk dflt (pre ++ post) r) :=
+  resume_eq_calls (fun c r => (exec S mk dflt c r).1) id (clone reconnect pk) Recon.swf
+    (fun r h => clone_eq pk r h.1) (fun c r h => exec_swf S mk dflt c r h) r h pre post
+
+/-- the iteration loop of a call is the iterate of theorem 1 -/
+theorem exec_plain_eq_iterate {θ γ μ σ : Type} (S : Step θ γ μ σ) (mk : Nat → Nat → σ × Nat) (dflt : List (String × Nat))
+    (n : Nat) (r : Recon θ μ σ) : exec S mk dflt { n := n } r = ((iter S)^[n] r, false) := by
+  simp [exec, andThen, setConstraints, iterN_eq]
+
+/-! witness for the unrepaired `reset_recon`: SGD with momentum on the object -/
+
+def sessStep : Step Int Int Int Unit where
+  loss := fun _ => 0
+  grad := fun _ key _ => if key = "object" then some 1 else none
+  upd := fun _ _ m x g => (some (m.getD 0 + g), x - (m.getD 0 + g))
+  sched := fun s _ lr => (s, lr)
+
+def sessMk : Nat → Nat → Unit × Nat := fun _ lr => ((), lr)
+
+def sessInit : Recon Int Int Unit where
+  object := { params := [(0, 0)], opt := none, sched := none, cons := [], init := [0] }
+  probe := { params := [(0, 5)], opt := none, sched := none, cons := [], init := [5] }
+  dataset := { params := [(0, 7)], opt := none, sched := none, cons := [], init := [7] }
+  book := Book.empty
+  verbose := 0
+  batchSize := 1
+  preprocessed := true
+  device := "cpu"
+
+/-- run one iteration with an object optimizer; pass an optimizer keyword torch rejects (the configuration stays
+stored); `reconstruct(reset=True)` is then rejected half-way -/
+def sessPre : List Call :=
+  [{ opt := some [("object", ⟨.ok, 0, 1⟩)], n := 1 }, { opt := some [("object", ⟨.badkw, 0, 1⟩)] }, { reset := true }]
+
+/-- **before the repair the property failed on this history**: the rejected reset leaves the object's optimizer on
+the discarded tensor (the state is not well-formed), the uninterrupted original no longer trains the object (value 0
+after one more iteration) whereas the reloaded one — re-bound by `.to()` — does (value −2), for every `Pickle`;
+with the repaired `reset_recon` both give −2 -/
+theorem reset_unrepaired_counterexample (pk : Pickle (ModelSt Int Int Unit)) :
+    (runCallsUnrepaired sessStep sessMk [] (sessPre ++ [{ n := 1 }]) sessInit).object.params = [(1, 0)] ∧
+    ((fromFile pk (save reconnect pk (runCallsUnrepaired sessStep sessMk [] sessPre sessInit))).map
+        (runCallsUnrepaired sessStep sessMk [] [{ n := 1 }])).map (fun r => r.object.params) = some [(1, -2)] ∧
+    ((runCallsUnrepaired sessStep sessMk [] sessPre sessInit).object.opt.map (·.params)) = some [0] ∧
+    (runCalls sessStep sessMk [] (sessPre ++ [{ n := 1 }]) sessInit).object.params = [(1, -2)] := by
+  rw [fromFile_save]
+  simp only [Option.map_some]
+  exact ⟨by decide, by decide, by decide, by decide⟩
+
 /-! ### non-vacuity -/
+
+example : sessInit.swf := by
+  refine ⟨⟨?_, ?_, ?_⟩, by simp [sessInit], by simp [sessInit], by simp [sessInit]⟩ <;> intro o ho <;> simp [sessInit] at ho
+
+/-- the rejected calls of `sessPre` are rejected in the model, and the invariant survives them (repaired code) -/
+example : (exec sessStep sessMk [] { opt := some [("object", ⟨.badkw, 0, 1⟩)] } sessInit).2 = true := by decide
+
+example (pk : Pickle (ModelSt Int Int Unit)) :
+    ((fromFile pk (save reconnect pk (runCalls sessStep sessMk [] sessPre sessInit))).map
+        (runCalls sessStep sessMk [] [{ n := 1 }])).map (fun r => r.object.params) = some [(1, -2)] := by
+  rw [fromFile_save]
+  simp only [Option.map_some]
+  decide
+
 
 example : cexInit.wf := by
   refine ⟨?_, ?_, ?_⟩ <;> intro o ho <;> simp [cexInit] at ho
